@@ -737,6 +737,99 @@ fn theme_sparse(t: &mut Tape) -> Option<GenPos> {
     finish(t, p, "theme_sparse")
 }
 
+/// Theme: 28-32 men on alternating files of every rank (the longest possible FEN board fields:
+/// "p1p1p1p1/..." is 71 characters), statically legal by construction: occupied squares all have the
+/// same file parity within a side's half, so no slider, knight or pawn reaches a king.
+fn theme_dense(t: &mut Tape) -> Option<GenPos> {
+    let mut p = Pos::empty();
+    let wo = t.pick(2) as i32;
+    let bo = t.pick(2) as i32;
+    let mut order = |t: &mut Tape| -> Vec<Kind> {
+        let mut v = vec![Kind::K, Kind::Q, Kind::R, Kind::R, Kind::B, Kind::B, Kind::N, Kind::N];
+        for i in (1..v.len()).rev() {
+            let j = t.pick(i + 1);
+            v.swap(i, j);
+        }
+        v
+    };
+    let w = order(t);
+    let b = order(t);
+    for i in 0..4 {
+        p.board[sq(2 * i as i32 + wo, 0) as usize] = Some(Pc::new(true, w[i]));
+        p.board[sq(2 * i as i32 + wo, 1) as usize] = Some(Pc::new(true, w[4 + i]));
+        p.board[sq(2 * i as i32 + wo, 2) as usize] = Some(Pc::new(true, Kind::P));
+        p.board[sq(2 * i as i32 + wo, 3) as usize] = Some(Pc::new(true, Kind::P));
+        p.board[sq(2 * i as i32 + bo, 7) as usize] = Some(Pc::new(false, b[i]));
+        p.board[sq(2 * i as i32 + bo, 6) as usize] = Some(Pc::new(false, b[4 + i]));
+        p.board[sq(2 * i as i32 + bo, 5) as usize] = Some(Pc::new(false, Kind::P));
+        p.board[sq(2 * i as i32 + bo, 4) as usize] = Some(Pc::new(false, Kind::P));
+    }
+    // sometimes a few men fewer (never a king)
+    let remove = [0usize, 0, 0, 1, 2, 4][t.pick(6)];
+    for _ in 0..remove {
+        let s = t.pick(64);
+        if let Some(pc) = p.board[s] {
+            if pc.kind != Kind::K {
+                p.board[s] = None;
+            }
+        }
+    }
+    p.white_to_move = t.pick(2) == 0;
+    let wk = p.king_sq(true)?;
+    let bk = p.king_sq(false)?;
+    let (w_in, b_in) = (p.attacked(wk, false), p.attacked(bk, true));
+    if w_in && b_in {
+        return None;
+    }
+    if w_in {
+        p.white_to_move = true;
+    }
+    if b_in {
+        p.white_to_move = false;
+    }
+    grant_rights(t, &mut p);
+    finish(t, p, "theme_dense")
+}
+
+/// Theme: very long exchanges on one square: up to eleven attackers a side (four knights, bishop
+/// batteries on both diagonals, doubled rooks and a queen on the file), so that a capture sequence
+/// can run past sixteen recaptures.
+fn theme_long_exchange(t: &mut Tape) -> Option<GenPos> {
+    let mut p = Pos::empty();
+    p.white_to_move = true;
+    let f = 2 + t.pick(4) as i32;
+    let r = 3;
+    let target = sq(f, r);
+    let victim = [Kind::P, Kind::P, Kind::N, Kind::B, Kind::R][t.pick(5)];
+    p.board[target as usize] = Some(Pc::new(false, victim));
+    let row1 = [Kind::N, Kind::B, Kind::R, Kind::B, Kind::N];
+    let row2 = [Kind::B, Kind::N, Kind::R, Kind::N, Kind::B];
+    for (white, dir) in [(true, -1), (false, 1)] {
+        for (i, df) in (-2..=2).enumerate() {
+            if !on_board(f + df, r + dir) {
+                continue;
+            }
+            if t.pick(7) != 0 {
+                p.board[sq(f + df, r + dir) as usize] = Some(Pc::new(white, row1[i]));
+            }
+            if t.pick(7) != 0 {
+                p.board[sq(f + df, r + 2 * dir) as usize] = Some(Pc::new(white, row2[i]));
+            }
+        }
+        if t.pick(6) != 0 {
+            p.board[sq(f, r + 3 * dir) as usize] = Some(Pc::new(white, Kind::Q));
+        }
+    }
+    // kings in far corners, wherever they are safe
+    let corners = [sq(7, 0), sq(0, 0), sq(7, 1), sq(0, 1)];
+    let wk = corners.iter().copied().find(|s| p.board[*s as usize].is_none() && !p.attacked(*s, false))?;
+    p.board[wk as usize] = Some(Pc::new(true, Kind::K));
+    let corners_b = [sq(0, 7), sq(7, 7), sq(0, 6), sq(7, 6)];
+    let bk = corners_b.iter().copied().find(|s| p.board[*s as usize].is_none() && !p.attacked(*s, true))?;
+    p.board[bk as usize] = Some(Pc::new(false, Kind::K));
+    finish(t, p, "theme_long_exchange")
+}
+
 /// Weighted chooser of the position source. `mix` selects the emphasis.
 #[derive(Clone, Copy, PartialEq, Eq, Debug)]
 pub enum Mix {
@@ -748,6 +841,10 @@ pub enum Mix {
     Sparse,
     /// tactics: like pieces, queens, promotions (SAN / SEE / picker)
     Tactical,
+    /// longest FEN board fields
+    Dense,
+    /// up to eleven attackers a side on one square
+    LongExchange,
 }
 
 pub fn gen_root(t: &mut Tape, mix: Mix) -> Option<GenPos> {
@@ -760,10 +857,12 @@ pub fn gen_root(t: &mut Tape, mix: Mix) -> Option<GenPos> {
     };
     match mix {
         Mix::Roots => root(t),
+        Mix::Dense => theme_dense(t),
         Mix::Sparse => match t.pick(4) {
             0 => root(t),
             _ => theme_sparse(t),
         },
+        Mix::LongExchange => theme_long_exchange(t),
         Mix::Tactical => match t.pick(12) {
             0 | 1 => root(t),
             2 | 3 | 4 => theme_multi(t),
